@@ -2,7 +2,9 @@ package main
 
 import (
 	"fmt"
+	"math"
 	"math/big"
+	"strconv"
 	"strings"
 	"unicode/utf16"
 
@@ -60,7 +62,18 @@ var towardsZero = []string{"1e-400", "-1e-400", "1e-99999", "0e999999", "0E-9999
 
 func (g *tg) number() {
 	r := g.r
-	switch r.Pick(20, 5, 5, 10, 14, 16, 8, 2, 3, 12) {
+	switch r.Pick(20, 5, 5, 10, 14, 16, 8, 2, 3, 12, 10) {
+	case 10:
+		// integers of 16..20 digits (2^53 .. 2^64 and a bit beyond), 17-digit decimals
+		s := fmt.Sprint(1+r.Intn(9)) + g.digits(15+r.Intn(5))
+		if r.Chance(30) {
+			i := 1 + r.Intn(len(s)-1)
+			s = s[:i] + "." + s[i:]
+		}
+		if r.Chance(20) {
+			s = "-" + s
+		}
+		g.put(s)
 	case 0:
 		g.put(fmt.Sprint(r.Intn(1000)))
 	case 1:
@@ -371,6 +384,7 @@ func edit(base []uint16, op string, i int, ch uint16) []uint16 {
 // values
 
 var vKeys = [][]uint16{u16("a"), u16("b"), u16("c"), u16(""), u16("0"), u16("1"), u16("2"), u16("10"), u16("01"), u16("__proto__"),
+	u16("1152921504606847000"), u16("1e+21"), u16("1e-7"), u16("9007199254740994"), u16("0.1"), u16("0.30000000000000004"),
 	u16("k\u00e9"), u16("q\"\\\n\x01"), {0x6b, 0xd800}, u16("a b"), u16("-1"), u16("1.5"), u16("4294967294"), u16("4294967295"), {0xdc00, 0x78}}
 
 func (g *gen) vstring() []uint16 {
@@ -402,8 +416,52 @@ func (g *gen) vstring() []uint16 {
 	return out
 }
 
+func fbits(f float64) *Num { return &Num{Bits: strconv.FormatUint(math.Float64bits(f), 10)} }
+
+var numEdges = []float64{1e21, 1e-7, 1e-6, 9007199254740992, 9007199254740994, 18014398509481984, 1152921504606846976,
+	9223372036854775808, 18446744073709551616, 4294967296, 0.1, 0.2, 0.3, 1.0 / 3, 123456789012345680000, 1e22, 1e23,
+	5e-7, 1.5e-7, 0.000001234, 100, 1e20, 999999999999999900000.0, 0.1 + 0.2, 1.7976931348623157e308 / 1e200, 4.35, 2.675, 1.005}
+
+// doubles whose Number::toString is the subject (property C12's specification is the oracle in the model)
+func (g *gen) vbits() *Num {
+	r := g.r
+	var f float64
+	switch r.Pick(22, 14, 12, 14, 14, 8, 8, 3, 3, 2) {
+	case 0: // integers in 2^53..2^64 with an odd 53-bit significand
+		m := (uint64(1) << 52) | (r.U64() & (1<<52 - 1)) | 1
+		f = math.Ldexp(float64(m), 1+r.Intn(11))
+	case 1: // neighbours of the layout thresholds and other edges
+		f = numEdges[r.Intn(len(numEdges))]
+		b := math.Float64bits(f) + uint64(r.Intn(5)) - 2
+		f = math.Float64frombits(b)
+	case 2: // exact edges
+		f = numEdges[r.Intn(len(numEdges))]
+	case 3: // 17 significant digits: random significand, exponent near 0
+		f = math.Float64frombits(uint64(1013+r.Intn(30))<<52 | (r.U64() & (1<<52 - 1)))
+	case 4: // random doubles with a moderate exponent (1e-37 .. 1e38)
+		f = math.Float64frombits(uint64(900+r.Intn(250))<<52 | (r.U64() & (1<<52 - 1)))
+	case 5: // powers of two
+		f = math.Ldexp(1, r.Intn(160)-60)
+	case 6: // short decimals
+		f = float64(r.Intn(100000)) / []float64{10, 100, 1000, 1e5, 1e8, 1e10}[r.Intn(6)]
+	case 7: // subnormals and the smallest normals (slow in the model: rare)
+		f = math.Float64frombits([]uint64{1, 2, 3, 1 << 51, 1<<52 - 1, 1 << 52, r.U64() & (1<<52 - 1)}[r.Intn(7)])
+	case 8: // the largest doubles and large powers of two (slow in the model: rare)
+		f = []float64{math.MaxFloat64, math.Ldexp(1, 1023), math.Ldexp(1, 500), 1e300, 1e-300, math.Ldexp(1, -1022)}[r.Intn(6)]
+	default:
+		f = math.Copysign(0, -1)
+	}
+	if r.Chance(25) {
+		f = -f
+	}
+	return fbits(f)
+}
+
 func (g *gen) vnum() *Num {
 	r := g.r
+	if r.Chance(45) {
+		return g.vbits()
+	}
 	switch r.Pick(30, 25, 15, 8, 5, 5, 4, 4, 4) {
 	case 0:
 		return &Num{Q: fmt.Sprint(4 * r.Intn(100))}
@@ -532,6 +590,9 @@ func (g *gen) space() *V {
 		if r.Chance(12) {
 			return box(&V{T: "num", N: &Num{Sp: []string{"nan", "-inf", "negzero"}[r.Intn(3)]}})
 		}
+		if r.Chance(15) {
+			return box(&V{T: "num", N: fbits([]float64{2.5, 10.9, 9.999999999999998, 0.9999999999999999, -3.5, 1e21, 4294967297, 5e-324, 7}[r.Intn(9)])})
+		}
 		return box(numQ(qs[r.Intn(len(qs))]))
 	case 2:
 		ss := []string{"", " ", "\t", "  ", "\n", "-", "ab", "0123456789abc", "            ", " \t\r\n", "0123456789", "\"", "\\"}
@@ -583,6 +644,9 @@ func (g *gen) replacer(v *V) *R {
 		case 1:
 			if r.Chance(10) {
 				l = append(l, &V{T: "num", N: &Num{Sp: []string{"negzero", "nan", "inf"}[r.Intn(3)]}})
+			} else if r.Chance(45) {
+				// ToString(number) selects the key: 2^60 -> "1152921504606847000", 1e21 -> "1e+21", ...
+				l = append(l, &V{T: "num", N: fbits([]float64{1152921504606846976, 1e21, 1e-7, 9007199254740994, 0.1, 0.1 + 0.2, 2, 10}[r.Intn(8)])})
 			} else {
 				l = append(l, numQ([]string{"0", "4", "8", "40", "6", "-4", "17179869176", "17179869180"}[r.Intn(8)]))
 			}
